@@ -32,6 +32,9 @@ def self_field(o):
     return None
 
 
+OVERLAYS = ("K2b",)
+
+
 def run(chk):
     P = mir.Program("K1")
     chk.use_program(P)
@@ -315,6 +318,25 @@ def run(chk):
     chk.ob("C05.R6:Timer::extent", "the extent is range(start reading .. a fresh Clock::now), only when both exist", timer_extent)
 
     # ---------------- R7 default completion panic arm ---------------------------------------------------------
+    def is_panicking():
+        ks = [k for k in P.bodies if k.endswith("::complete::is_panicking")]
+        if not ks:
+            raise mir.AnchorMissing("Default::complete::is_panicking")
+        b = P.body(ks[0])
+        cs = b.calls(normal_only=True)
+        if cs:
+            if len(cs) == 1 and cs[0].callee.get("path", "").endswith("thread::functions::panicking") or \
+                    (len(cs) == 1 and cs[0].callee.get("name") == "panicking"):
+                if not mir.o_is_call(b.origin(0), name="panicking"):
+                    return False, "is_panicking() does not return the result of std::thread::panicking()", [], b.span
+                return True, "std::thread::panicking()", [cs[0].loc]
+            return False, "is_panicking() calls %s" % [c.callee.get("path") for c in cs], [], b.span
+        v = common.const_return(b)
+        if v is not False:
+            return False, "without std nothing can be unwinding through the guard: is_panicking() must be constant false (found %r)" % (v,), [], b.span
+        return True, "constant false (no std)", [b.span]
+    chk.ob("C05.R7:is_panicking", "the panic arm is selected by std::thread::panicking(); without std it is never selected", is_panicking)
+
     def r7():
         b = P.impl_method(COMPLETION, "emit::span::completion::Default<'a, E, C, L>", "complete")
         ip = [c for c in b.calls(normal_only=True) if c.callee.get("name") in ("is_panicking", "panicking")]
